@@ -71,11 +71,18 @@ def join(
     key_paths = []
     for pp in paths_in:
         with new_dataset(pp) as dsa:
-            # sorting key
-            key = "_".join([dsa.config["experiment"]["date"],
-                            dsa.config["experiment"]["time"],
-                            str(dsa.config["experiment"]["run index"])
-                            ])
+            # sorting key: acquisition time in seconds (including
+            # fractions of a second) and run index as numbers; comparing
+            # strings would sort "12:00:00.5" before "12:00:00" and run
+            # index "10" before "9"
+            etime = dsa.config["experiment"]["time"]
+            st = time.strptime(dsa.config["experiment"]["date"]
+                               + etime[:8],
+                               "%Y-%m-%d%H:%M:%S")
+            tsec = time.mktime(st)
+            if len(etime) > 8:
+                tsec += float(etime[8:])
+            key = (tsec, int(dsa.config["experiment"]["run index"]))
             key_paths.append((key, pp))
     sorted_paths = [p[1] for p in sorted(key_paths, key=lambda x: x[0])]
 
